@@ -11,7 +11,8 @@ import (
 // entity exactly once also when paged with continuation tokens; an unscoped
 // lookup returns the merge of the per-dataset latest non-deleted versions.
 func VerifC01History(h *verifh.H) {
-	hs := vNewHistory(h, "d1", "d2")
+	names := []string{"d1", "d2", "d3", "d4"}[:h.Param("nds", 2)]
+	hs := vNewHistory(h, names...)
 	hub, g := hs.hub, hs.g
 	steps := h.Param("steps", 2)
 	for s := 0; s < steps; s++ {
